@@ -89,6 +89,8 @@ var govcCases = []govcCase{
 	{"named-nested-containers-of-unions", map[string]string{"root.go": "package m\n\ntype U interface{ isU() }\n\ntype A struct{}\n\nfunc (A) isU() {}\n\ntype LLU [][]U\n\ntype MLU map[string][]U\n\ntype T struct {\n\tC LLU\n\tD MLU\n}\n"}},
 	{"named-over-named", map[string]string{"root.go": "package m\n\ntype A int\n\ntype B A\n\ntype C B\n\ntype L []C\n\ntype LL L\n\ntype T struct {\n\tA A\n\tB B\n\tC C\n\tL LL\n}\n"}},
 	{"id-table-edge", map[string]string{"root.go": "package m\n\ntype Id int64\n\ntype ID int64\n\ntype IdT int64\n\ntype T struct {\n\tId IdT\n\tA  Id\n\tB  ID\n}\n\ntype I struct{ Id int64 }\n\ntype Link struct {\n\tA IdT\n\tB IdT\n}\n"}},
+	{"anonymous-struct-spelled-like-time", map[string]string{"root.go": "package m\n\nimport \"time\"\n\ntype T struct {\n\tA struct {\n\t\twall uint64\n\t\text  int64\n\t\tloc  *time.Location\n\t}\n}\n"}},
+	{"named-struct-spelled-like-time", map[string]string{"root.go": "package m\n\nimport \"time\"\n\ntype Mine struct {\n\twall uint64\n\text  int64\n\tloc  *time.Location\n}\n\ntype T struct{ A Mine; D []Mine }\n"}},
 	{"null-wrappers", map[string]string{"root.go": "package m\n\nimport \"time\"\n\ntype NI struct {\n\tValid bool\n\tV     int64\n}\n\ntype NT struct {\n\tT     time.Time\n\tValid bool\n}\n\ntype Tab struct {\n\tId int64\n\tA  NI\n\tB  NT\n}\n"}},
 }
 
